@@ -248,6 +248,10 @@ void add_type(Node *node) {
   case ND_COND:
     if (node->then->ty->kind == TY_VOID || node->els->ty->kind == TY_VOID) {
       node->ty = ty_void;
+    } else if (node->then->ty->kind == TY_STRUCT || node->then->ty->kind == TY_UNION) {
+      // Both operands have the same struct or union type, which
+      // is the type of the result; no arithmetic conversion applies.
+      node->ty = node->then->ty;
     } else {
       usual_arith_conv(&node->then, &node->els);
       node->ty = node->then->ty;
